@@ -9,6 +9,12 @@
 
 using verif::Case;
 
+// Local workaround (see report): with the driver's ASAN_OPTIONS the allocation-stack depot grows by ~2 KB per
+// rapidcheck case (deep, ever-different generator stacks) and the 256 MB quarantine adds ~1 GB of RSS, so a
+// 2 M-case process reaches 4-5 GB and gets OOM-killed on the shared machine.  Options given in the environment
+// still override these defaults.
+extern "C" const char *__asan_default_options() { return "quarantine_size_mb=32:malloc_context_size=4"; }
+
 const verif::Info verif_info = {
     "C07", 160,
     "one case = (haystack, needle, start, limit), executed in both case modes through every needle form. Enumerated: every haystack "
